@@ -19,6 +19,12 @@ func (m *Message) SkipClassAdRaw(ctx context.Context) error {
 		return fmt.Errorf("failed to read expression count: %w", err)
 	}
 	for i := 0; i < numExprs; i++ {
+		// numExprs is peer-controlled. On a cleartext stream SkipString succeeds
+		// without consuming anything once the message is exhausted, so without
+		// this check a huge count would spin long after the input ended.
+		if m.Finished() {
+			return fmt.Errorf("message ended after %d of %d expressions", i, numExprs)
+		}
 		if err := m.SkipString(ctx); err != nil {
 			return fmt.Errorf("failed to skip expression %d (expected %d): %w", i, numExprs, err)
 		}
